@@ -34,9 +34,14 @@ Actor(o, c, p) == CHOOSE x \in { o.actors[k] : k \in 1..Len(o.actors) } : x.c = 
 
 RECURSIVE SumTo(_, _)
 SumTo(f(_), k) == IF k < 0 THEN 0 ELSE f(k) + SumTo(f, k - 1)
+\* program "A" (and its line-break variant): the sum of all inputs and constants; program "M": the sum plus the low six
+\* bits of the chain t := t * (x_q + 1) mod 251 (16 rounds, cycling through the parties, starting from 1)
+RECURSIVE Chain(_, _, _)
+Chain(c, r, t) == IF r = 16 THEN t ELSE Chain(c, r + 1, (t * (cur.inputs[c][(r % N) + 1] + 1)) % 251)
 Expected(c) ==
-  LET term(p) == cur.inputs[c][p + 1] + (IF Pol(c, p).consts THEN cur.cvals[c][p + 1] ELSE 0) IN
-  SumTo(term, N - 1) % 256
+  LET term(p) == cur.inputs[c][p + 1] + (IF Pol(c, p).consts THEN cur.cvals[c][p + 1] ELSE 0)
+      sum == SumTo(term, N - 1) IN
+  IF Pol(c, TrueLeader(c)).prog = "M" THEN (sum + (Chain(c, 0, 1) % 64)) % 256 ELSE sum % 256
 
 Mismatch(c) == \E p \in Parties : Pol(c, p).prog # Pol(c, TrueLeader(c)).prog \/ Pol(c, p).leader # TrueLeader(c)
 IllTyped(c) == \E p \in Parties : ~Pol(c, p).typed
